@@ -94,4 +94,119 @@ example : groupFree
      { truthy := true, cause := none, context := some 0, suppress := false, group := none, tb := [], parents := [] }] := by
   intro x hx; simp at hx; rcases hx with rfl | rfl <;> rfl
 
+/-! ### totality -/
+
+/-- FULL statement (not provable – false of the current code, finding F12): with whatever positive
+stack budget the interpreter has left, formatting succeeds for every heap. -/
+def format_total_statement : Prop :=
+  ∀ (budget : Nat), 0 < budget → ∀ (h : Heap) (o : Opts) (root : ExcId) (fromDec : Bool),
+    ∃ out, formatException h o budget root fromDec = .ok out
+
+/-- **format_total_partial**: formatting terminates and succeeds – for every heap (arbitrary, cyclic
+cause/context graphs; nested groups; raising `repr`s; falsy exceptions; missing tracebacks; dangling
+ids), every mode and entry point – as soon as the stack budget exceeds `depthBound`, the
+lexicographic measure (exceptions not yet in `seen`, group rank, still-at-nesting-0).  The only
+hypotheses are that budget (F12: the chain walk is recursive) and the well-foundedness of group
+membership (`exceptions` tuples are immutable). -/
+theorem format_total_partial (h : Heap) (o : Opts) (rank : ExcId → Nat) (R : Nat) (hr : Ranked h rank R)
+    (budget : Nat) (root : ExcId) (fromDec : Bool) (hb : depthBound h rank R [] root 0 < budget) :
+    ∃ out, formatException h o budget root fromDec = .ok out := by
+  obtain ⟨⟨ps, s⟩, hps⟩ := fmt_total h o rank R hr budget [] root true fromDec 0 hb
+  exact ⟨ps, by simp [formatException, hps]⟩
+
+/-- without groups the hypothesis is `chainLength ≤ |heap| < budget` -/
+theorem format_total_group_free (h : Heap) (o : Opts) (hgf : groupFree h) (budget : Nat) (root : ExcId)
+    (fromDec : Bool) (hb : h.length < budget) : ∃ out, formatException h o budget root fromDec = .ok out :=
+  ⟨_, chain_order_eq_standard h o hgf root fromDec budget hb⟩
+
+/-- a `__cause__` chain of `n` exceptions: 0 ← 1 ← … -/
+def causeChain (n : Nat) : Heap :=
+  (List.range n).map fun i =>
+    { truthy := true, cause := if i + 1 < n then some (i + 1) else none, context := none, suppress := true,
+      group := none, tb := [], parents := [] }
+
+def plainOpts : Opts := { backtrace := false, diagnose := false, colorize := false, limit := none, maxLen := Gen.maxLength }
+
+/-- model-level witness of F12: a chain longer than the budget is a `RecursionError`, one that fits is
+rendered (replayed on the implementation by `harness/c13.py`: 1200 exceptions, budget ≈ 1000) -/
+theorem format_deep_chain_witness :
+    formatException (causeChain 4) plainOpts 3 0 false = .error .runtimeError ∧
+    (formatException (causeChain 4) plainOpts 5 0 false).toOption.isSome = true := by
+  constructor <;> rfl
+
+theorem format_total_statement_false : ¬ format_total_statement := by
+  intro hs
+  obtain ⟨out, ho⟩ := hs 3 (by omega) (causeChain 4) plainOpts 0 false
+  rw [format_deep_chain_witness.1] at ho
+  cases ho
+
+/-- non-vacuity of `format_total_partial`: a group whose member's cause is the group itself -/
+example : Ranked
+    [{ truthy := true, cause := none, context := none, suppress := false, group := some [1], tb := [], parents := [] },
+     { truthy := true, cause := some 0, context := none, suppress := true, group := none, tb := [], parents := [] }]
+    (fun i => if i = 0 then 1 else 0) 1 := by
+  constructor
+  · intro i; split <;> omega
+  · intro g x ms m hg hgrp hm
+    match g, hg with
+    | 0, hg => simp at hg; subst hg; simp at hgrp; subst hgrp; simp at hm; subst hm; simp
+    | 1, hg => simp at hg; subst hg; simp at hgrp
+    | n + 2, hg => simp at hg
+
+/-! ### frames -/
+
+/-- **frames_are_traceback_frames_in_order**: what `_extract_frames` returns for one exception is
+exactly – in order – the caller frames the mode asks for (none; all non-hidden callers, outermost
+first, with `backtrace` on the logged exception; the one calling frame for the decorator without
+`backtrace`) followed by the non-hidden traceback frames, cut to the last `tracebacklimit` entries;
+nothing when there is no traceback or the limit is ≤ 0. -/
+theorem frames_are_traceback_frames_in_order (o : Opts) (isFirst fromDec : Bool) (tb parents : List Frame) :
+    (extractFrames o isFirst fromDec tb parents).map (·.fr) =
+      if tb.isEmpty || limitBlocks o.limit then []
+      else applyLimit o.limit (callerFrames o isFirst fromDec parents ++ visible tb) := by
+  cases tb with
+  | nil => rfl
+  | cons t0 rest =>
+    simp only [extractFrames, List.isEmpty_cons, Bool.false_or]
+    split
+    · rfl
+    · rw [← applyLimit_map]
+      congr 1
+      have hv : visible (t0 :: rest) = visible [t0] ++ visible rest := by
+        simp [visible, List.filter_cons]; split <;> simp
+      rw [hv, List.map_append, unmarked_fr, callerFrames]
+      split
+      · simp [unmarked_fr]
+      · split
+        · simp [markLast_fr]
+        · simp [unmarked_fr]
+
+/-- the catch-point mark appears only with `backtrace` on the logged exception, and then exactly on
+the last of (callers + first traceback frame), i.e. on the frame where the exception was caught -/
+theorem catch_mark_only_with_backtrace (o : Opts) (isFirst fromDec : Bool) (tb parents : List Frame)
+    (h : o.backtrace = false ∨ isFirst = false) :
+    ∀ s ∈ extractFrames o isFirst fromDec tb parents, s.mark = false := by
+  intro s hs
+  cases tb with
+  | nil => simp [extractFrames] at hs
+  | cons t0 rest =>
+    simp only [extractFrames] at hs
+    split at hs
+    · simp at hs
+    · have hs' := mem_applyLimit _ _ _ hs
+      simp only [List.mem_append] at hs'
+      rcases hs' with hs' | hs'
+      · split at hs'
+        · exact unmarked_mark _ s hs'
+        · split at hs'
+          · rename_i hbt; rcases h with h | h <;> simp [h] at hbt
+          · exact unmarked_mark _ s hs'
+      · exact unmarked_mark _ s hs'
+
+/-- folding repeated frames only drops frames: the frame pieces (with their marks) are a
+subsequence, in order, of the extracted frames -/
+theorem folded_frames_in_order (o : Opts) (d : Nat) (fs : List Shown) :
+    ((foldFrames o d none 0 fs).filterMap Piece.frameInfo?).Sublist (fs.map (fun s => (s.fr.info, s.mark))) :=
+  foldFrames_sublist o d fs none 0
+
 end C13
